@@ -99,6 +99,30 @@ func c12Program(run *common.Run, prog int, engine string, idx int) {
 			}
 			continue
 		}
+		if r.Chance(1, 6) {
+			// a ReadModifyWriteRow (another write path of the server) on the families of the program, mostly the
+			// droppable one
+			rules := gen.Rules(r, 0, 1, 2)
+			for i := range rules {
+				if r.Chance(2, 3) {
+					rules[i].Fam = "g"
+				}
+				rules[i].Append = true // appends never fail on the stored value
+				rules[i].Val = fmt.Sprint("+", s)
+			}
+			v, nr, _ := m.RMW(key, toModelRules(rules), clock)
+			st, _ := drive.ReadModifyWrite(srv.Data, table, key, rules)
+			steps = append(steps, fmt.Sprintf("ReadModifyWriteRow(%q,%v) -> %s", key, rules, st))
+			if (v == model.MustOK && !st.OK()) || (v == model.MustErr && st.OK()) {
+				fail("ReadModifyWriteRow disagreement (see C13)")
+				return
+			}
+			if st.OK() {
+				m.Commit(key, nr)
+				run.Count("rows_written_through_read_modify_write", 1)
+			}
+			continue
+		}
 		if r.Chance(1, 3) {
 			muts := remap(gen.Mutations(r, gen.Opts{}, 1, 4))
 			v, nr := m.Apply(key, muts, clock)
